@@ -25,28 +25,48 @@ PolicyStep(pre, ev) ==
 \* C15: the callback received exactly the departing entries, once each, in departure order
 \* (a pair handed straight back by a capacity-0 cache never entered it: either answer accepted)
 C15Step(pre, ev) ==
-  IF ev.panic \/ ~RWellFormed(StOf(pre)) \/ ev.op \notin SpecOps THEN TRUE
+  IF ev.op = "drop" THEN TRUE
+  ELSE IF ev.panic THEN TRUE
+  ELSE IF ~RWellFormed(StOf(pre)) THEN TRUE
+  ELSE IF ev.op \notin SpecOps THEN ev.cb = <<>>
   ELSE LET x == RApply(ev, StOf(pre)) IN
        \/ ev.cb = x.cb
        \/ pre.cap = 0 /\ ev.op \in PutLikeOps /\ IsPutResult(EvPR(ev)) /\ EvPR(ev).t = "Evicted"
             /\ ev.cb = <<<<ev.k, ev.v>>>>
 
+\* C16: a clone is observationally identical at the moment of cloning (capacity, every partition in
+\* order with values, estimator state), behaves identically afterwards, and is independent
+Same2(o1, o2) == /\ FullState(o2) = FullState(o1) /\ o2.contains = o1.contains /\ o2.peek = o1.peek
+                 /\ o2.len = o1.len /\ o2.empty = o1.empty
+C16Step(pre, ev) ==
+  CASE ev.op = "clone" -> IF ev.panic THEN FALSE
+                          ELSE IF "unsupported" \in DOMAIN ev THEN TRUE
+                          ELSE Same2(ev.obs, ev.obs2) /\ FullState(ev.obs) = FullState(pre)
+    [] ev.op = "both" -> ev.ret2 = ev.ret /\ Same2(ev.obs, ev.obs2)
+    [] ev.op \in {"clone_only", "clone_dropped"} -> FullState(ev.obs) = FullState(pre)
+    [] OTHER -> TRUE
+
 \* predicates shared by all cache types, selected by PROP; policy property id: C06
 Generic(pre, ev) ==
-  CASE PROP = "C01" -> ev.panic \/ ev.op = "drop" \/ (C01View(OV(ev.obs)) /\ AccessorsOK(ev.obs))
-    [] PROP = "C02" -> ev.panic \/ ev.op = "drop" \/ C02Step(OV(pre), ev, OV(ev.obs))
-    [] PROP = "C03" -> ev.panic \/ ev.op = "drop" \/ (C03Audit(ev.obs) /\ ev.anomalies = <<>>)
-    [] PROP = "C04" -> ev.panic \/ C04Event(TokOf(pre), ev, IF ev.op = "drop" THEN <<>> ELSE TokOf(ev.obs))
-    [] PROP = "C05" -> ~ev.panic
-    [] PROP = "C12" -> ev.panic \/ ev.op = "drop" \/ ~IsPutResult(EvPR(ev))
-                         \/ C12Put(OV(pre), ev.k, ev.v, EvPR(ev), OV(ev.obs), FALSE)
-    [] PROP = "C13" -> ev.panic \/ ev.op = "drop" \/
-                         (ev.obs.stable /\ (ev.op \in ReadOnlyOps /\ ~HasW(ev) => FullState(ev.obs) = FullState(pre)))
-    [] PROP = "C06" -> ev.op = "drop" \/ PolicyStep(pre, ev)
+  \* (IF .. THEN TRUE ELSE ..: inside an action TLC evaluates BOTH sides of a disjunction)
+  IF ev.op = "drop" /\ PROP # "C04" THEN TRUE
+  ELSE IF ev.panic /\ PROP \notin {"C05", "C16", "C06"} THEN TRUE
+  ELSE CASE PROP = "C01" -> C01View(OV(ev.obs)) /\ AccessorsOK(ev.obs)
+         [] PROP = "C02" -> C02Step(OV(pre), ev, OV(ev.obs))
+         [] PROP = "C03" -> C03Audit(ev.obs) /\ ev.anomalies = <<>>
+         [] PROP = "C04" -> C04Event(TokOf(pre), ev, IF ev.op = "drop" THEN <<>> ELSE TokOf(ev.obs))
+         [] PROP = "C05" -> ~ev.panic
+         [] PROP = "C16" -> C16Step(pre, ev)
+         [] PROP = "C12" -> IF IsPutResult(EvPR(ev))
+                            THEN C12Put(OV(pre), ev.k, ev.v, EvPR(ev), OV(ev.obs), FALSE) ELSE TRUE
+         [] PROP = "C13" -> /\ ev.obs.stable
+                            /\ (IF ev.op \in ReadOnlyOps /\ ~HasW(ev) THEN FullState(ev.obs) = FullState(pre) ELSE TRUE)
+         [] PROP = "C06" -> PolicyStep(pre, ev)
 JumpOK(ev) ==
-  /\ (PROP = "C03" => C03Audit(ev.obs) /\ ev.anomalies = <<>>)
-  /\ (PROP = "C01" => C01View(OV(ev.obs)) /\ AccessorsOK(ev.obs))
-  /\ (PROP = "C04" => C04Distinct(TokOf(ev.obs)) /\ ev.anomalies = <<>>)
+  CASE PROP = "C03" -> C03Audit(ev.obs) /\ ev.anomalies = <<>>
+    [] PROP = "C01" -> C01View(OV(ev.obs)) /\ AccessorsOK(ev.obs)
+    [] PROP = "C04" -> C04Distinct(TokOf(ev.obs)) /\ ev.anomalies = <<>>
+    [] OTHER -> TRUE
 Check(pre, ev) == IF PROP = "C15" THEN C15Step(pre, ev) ELSE Generic(pre, ev)
 
 TInit == l = 1 /\ base = [none |-> TRUE] /\ cur = [none |-> TRUE]
